@@ -4,7 +4,7 @@ API (stable; other property builders import it):
 
     gen_program(rng, preset="C01", size=40, form=None, max_depth=5) -> prog
         rng     random.Random (all randomness comes from it)
-        preset  name in PRESETS ("C01", "C04", "C05", "C10", "C20", "min"): feature weights over ONE grammar
+        preset  name in PRESETS ("C01", "C04", "C05", "C10", "C20", "async", "min"): feature weights over ONE grammar
         size    statement/expression budget (about the number of statements; 10..200)
         max_depth  bound on statement nesting (blocks, loops, function bodies)
         form    "script" (top-level code, completion value = script completion) | "func" (body inside
@@ -41,6 +41,8 @@ BASE = {
     "i_destruct_defaults": 2.0, "i_class_order": 2.0, "i_coerce_order": 2.0, "i_tdz_closure": 1.5,
     "i_gen_protocol": 2.0, "i_compound_member": 1.5, "i_args_object": 1.0, "i_getter_setter": 1.5,
     "i_completion": 1.5, "i_spread_iter": 1.0, "i_label_loops": 1.0, "i_closure_loop": 1.0,
+    # promises / async functions (jobs run after the script, FIFO)
+    "i_async_order": 1.2, "i_promise_chain": 1.2, "i_thenable": 0.8, "i_promise_comb": 0.8, "i_async_flow": 1.0, "await": 6,
     # program-level probabilities
     "p_strict": 0.25, "p_func_form": 0.5, "p_early_error": 0.04, "p_wild": 0.15, "p_guard": 0.6,
 }
@@ -63,6 +65,8 @@ PRESETS = {
     "C10": _preset(classdecl=6, i_class_order=4, i_closure_loop=4, i_spread_iter=3, i_gen_protocol=3, forof=5),
     # determinism: key order, for-in
     "C20": _preset(forin=6, i_obj_rest_nested=3, i_spread_iter=3, i_getter_setter=3),
+    # async / promise ordering only (C16-style programs over the C01 grammar)
+    "async": _preset(i_async_order=8, i_promise_chain=8, i_thenable=5, i_promise_comb=5, i_async_flow=8, classdecl=1, generator=1, p_early_error=0),
     "min": _preset(**{k: 0 for k in BASE if k.startswith("i_") or k in ("with", "eval", "classdecl", "generator")}),
 }
 
@@ -166,15 +170,16 @@ class Scope:
 class Ctx:
     """where we are: function nesting info"""
     def __init__(self, level, in_func, in_gen=False, strict=False, in_loop=0, labels=(), in_switch=0, in_finally=0, is_arrow=False,
-                 in_method=False, in_ctor=False, depth=0):
+                 in_method=False, in_ctor=False, depth=0, in_async=False):
         self.depth = depth
+        self.in_async = in_async
         self.level, self.in_func, self.in_gen, self.strict = level, in_func, in_gen, strict
         self.in_loop, self.labels, self.in_switch, self.in_finally = in_loop, labels, in_switch, in_finally
         self.is_arrow, self.in_method, self.in_ctor = is_arrow, in_method, in_ctor
 
     def but(self, **kw):
         c = Ctx(self.level, self.in_func, self.in_gen, self.strict, self.in_loop, self.labels, self.in_switch, self.in_finally,
-                self.is_arrow, self.in_method, self.in_ctor, self.depth)
+                self.is_arrow, self.in_method, self.in_ctor, self.depth, self.in_async)
         for k, v in kw.items():
             setattr(c, k, v)
         return c
@@ -623,7 +628,8 @@ class Gen:
         if not strict and not fancy and kind in ("FNormal", "FGenerator") and self.chance(0.12):
             own_strict = True
             self.feat("function_strict")
-        fcx = Ctx(cx.level, True, in_gen=(kind == "FGenerator"), strict=strict or own_strict, is_arrow=(kind == "FArrow"),
+        fcx = Ctx(cx.level, True, in_gen=(kind == "FGenerator"), strict=strict or own_strict, is_arrow=(kind in ("FArrow", "FAsyncArrow")),
+                  in_async=(kind in ("FAsync", "FAsyncArrow")),
                   in_method=(cx.in_method if kind == "FArrow" else kind in ("FMethod", "FGetter", "FSetter")), depth=cx.depth + 1)
         saved = self.cur_strict
         self.cur_strict = fcx.strict
@@ -681,6 +687,8 @@ class Gen:
             table.append(("continue", w["continue"]))
         if cx.in_func:
             table.append(("return", w["return"]))
+        if cx.in_async and not cx.in_finally:
+            table.append(("await", w["await"]))
         if not cx.strict:
             table.append(("with", w["with"]))
         table.append(("eval", w["eval"]))
@@ -1692,6 +1700,166 @@ class Gen:
                 ("SBlock", [("SExpr", mcall(ident(fs), "push", ("EFunc", fi)))] + body_extra))
         fj = self.add_func(func(kind="FArrow", params=[(pid("f"), None)], expr_body=call(ident("f")), strict=cx.strict))
         return [let(fs, arr(), "KConst"), loop, pr(mcall(mcall(ident(fs), "map", ("EFunc", fj)), "join"))]
+
+
+    # ---------------------------------------------------------------- promises and async functions
+    def arrow(self, params, expr_body=None, body=None, strict=False, kind="FArrow"):
+        return ("EFunc", self.add_func(func(kind=kind, params=[(pid(x), None) for x in params], expr_body=expr_body,
+                                            body=body if body is not None else [], strict=strict)))
+
+    def awaitable(self, sc, cx, tag):
+        """an expression to await / resolve with: plain value, resolved / rejected promise, thenable, promise chain"""
+        k = self.weighted([("value", 3), ("resolved", 3), ("rejected", 1.5), ("thenable", 1.5), ("chain", 1.5), ("newpromise", 1.5)])
+        v = self.lit(self.pick(["int", "str"]))
+        P = ident("Promise")
+        if k == "value":
+            return v
+        if k == "resolved":
+            return mcall(P, "resolve", v)
+        if k == "rejected":
+            return mcall(P, "reject", estr("rej" + tag) if self.chance(0.6) else ("ENew", ident("TypeError"), [("Arg", estr("m"))]))
+        if k == "thenable":
+            self.feat("thenable")
+            body = [pr(estr(tag + ".then")), ("SExpr", call(ident("res"), v)) if self.chance(0.75) else ("SExpr", call(ident("rej"), estr("trej")))]
+            if self.chance(0.25):
+                body.append(("SExpr", call(ident("res"), estr("again"))))
+            fi = self.add_func(func(name="then", kind="FMethod", params=[(pid("res"), None), (pid("rej"), None)], body=body, strict=cx.strict))
+            return ("EObject", [("PMethod", ("PKStr", u("then")), fi)])
+        if k == "chain":
+            return mcall(mcall(P, "resolve", v), "then", self.arrow(["t"], ("ESeq", call(ident("print"), estr(tag + ".c"), ident("t")), bin_("BAdd", ident("t"), self.lit("int"))), strict=cx.strict))
+        ex = self.arrow(["res", "rej"], body=[pr(estr(tag + ".ex")), ("SExpr", call(ident(self.pick(["res", "res", "rej"])), v))] +
+                        ([("SThrow", estr("late"))] if self.chance(0.2) else []), strict=cx.strict)
+        return ("ENew", P, [("Arg", ex)])
+
+    def s_await(self, sc, cx):
+        """a suspension statement inside an async function: await e; / x = await e; / let x = await e; (DESIGN 2.2: statement position)"""
+        self.feat("await")
+        tag = self.fresh("w")
+        e = self.awaitable(sc, cx, tag)
+        k = self.weighted([("bare", 2), ("decl", 3), ("assign", 1.5)])
+        if k == "bare":
+            st = [("SAwait", None, None, e)]
+        elif k == "decl":
+            n = self.new_name(sc, avoid_visible=True)
+            sc.add(Var(n, "let", "any"))
+            st = [("SAwait", pid(n), self.pick(["KLet", "KConst"]), e), pr(estr(tag), ident(n))]
+        else:
+            v = self.var_of_type(sc, "any", assignable=True)
+            if v is None:
+                return [("SAwait", None, None, e), pr(estr(tag))]
+            st = [("SAwait", pid(v.name), None, e), pr(estr(tag), ident(v.name))]
+        if self.chance(0.6):
+            return [("STry", st, catch_print(tag + "c"), [pr(estr(tag + "f"))] if self.chance(0.3) else None)]
+        return st
+
+    def then_print(self, e, tag):
+        """e.then(v => print(tag, v), r => print(tag+'!', r && r.name || r))"""
+        r = ident("r")
+        return mcall(e, "then", self.arrow(["v"], call(ident("print"), estr(tag), ident("v"))),
+                     self.arrow(["r"], call(ident("print"), estr(tag + "!"), ("ELogical", "LOr", ("ELogical", "LAnd", r, member(r, "name")), r))))
+
+    def s_i_async_order(self, sc, cx):
+        """interleaving of async function bodies, then-callbacks and synchronous code"""
+        if sc.kind == "block":
+            return None
+        name = self.fresh("af")
+
+        def body(fsc, fcx):
+            out = [pr(estr(name + ".0"), ident("t"))]
+            for i in range(self.rng.randrange(1, 4)):
+                out += self.s_await(fsc, fcx)
+                if self.chance(0.5):
+                    out.append(pr(estr("%s.%d" % (name, i + 1))))
+            if self.chance(0.3):
+                out.append(("SReturnAwait", self.awaitable(fsc, fcx, name + "r")))
+            elif self.chance(0.7):
+                out.append(("SReturn", self.awaitable(fsc, fcx, name + "r") if self.chance(0.4) else bin_("BAdd", ident("t"), self.lit("int"))))
+            return out
+        fsc = Scope(sc, "function")
+        fsc.add(Var("t", "param", "any"))
+        fcx = Ctx(cx.level, True, strict=cx.strict, in_async=True, depth=cx.depth + 1)
+        saved = self.cur_strict
+        self.cur_strict = cx.strict
+        b = body(fsc, fcx)
+        self.cur_strict = saved
+        fi = self.add_func(func(name=name, kind="FAsync", params=[(pid("t"), None)], body=b, strict=cx.strict))
+        sc.add(Var(name, "func", "asyncfn", level=fi))
+        out = [("SFunDecl", u(name), fi)]
+        for i in range(self.rng.randrange(1, 3)):
+            out.append(("SExpr", self.then_print(call(ident(name), self.lit("int")), "%s>%d" % (name, i))))
+        out.append(pr(estr(name + ".sync")))
+        return out
+
+    def s_i_promise_chain(self, sc, cx):
+        tag = self.fresh("pc")
+        e = self.awaitable(sc, cx, tag)
+        if e[0] not in ("ECall", "ENew"):
+            e = mcall(ident("Promise"), "resolve", e)
+        for i in range(self.rng.randrange(1, 4)):
+            k = self.weighted([("then", 4), ("catch", 2), ("finally", 2), ("then_throw", 1.5), ("then_promise", 1.5)])
+            t = "%s.%d" % (tag, i)
+            if k == "then":
+                e = mcall(e, "then", self.arrow(["v"], ("ESeq", call(ident("print"), estr(t), ident("v")), bin_("BAdd", ident("v"), self.lit("int")))))
+            elif k == "catch":
+                e = mcall(e, "catch", self.arrow(["r"], ("ESeq", call(ident("print"), estr(t + "c"), ident("r")), self.lit("int"))))
+            elif k == "finally":
+                e = mcall(e, "finally", self.arrow([], ("ESeq", call(ident("print"), estr(t + "f")), self.awaitable(sc, cx, t) if self.chance(0.4) else self.lit("int"))))
+            elif k == "then_throw":
+                e = mcall(e, "then", self.arrow(["v"], body=[pr(estr(t + "t"), ident("v")), ("SThrow", estr("thrown" + t))]))
+            else:
+                e = mcall(e, "then", self.arrow(["v"], ("ESeq", call(ident("print"), estr(t + "p")), self.awaitable(sc, cx, t))))
+        return [("SExpr", self.then_print(e, tag + ".end")), pr(estr(tag + ".sync"))]
+
+    def s_i_thenable(self, sc, cx):
+        tag = self.fresh("th")
+        a = self.then_print(mcall(ident("Promise"), "resolve", self.awaitable(sc, cx, tag + "a")), tag + "a")
+        b = self.then_print(mcall(ident("Promise"), "resolve", self.lit("int")), tag + "b")
+        out = [("SExpr", a), ("SExpr", b)]
+        if self.chance(0.5):
+            out.append(("SExpr", self.then_print(("ENew", ident("Promise"), [("Arg", self.arrow(["res"], call(ident("res"), self.awaitable(sc, cx, tag + "n"))))]), tag + "n")))
+        self.rng.shuffle(out)
+        return out + [pr(estr(tag + ".sync"))]
+
+    def s_i_promise_comb(self, sc, cx):
+        tag = self.fresh("pa")
+        n = self.rng.randrange(0, 4)
+        els = [self.awaitable(sc, cx, "%s%d" % (tag, i)) for i in range(n)]
+        which = self.pick(["all", "all", "race"])
+        e = mcall(ident("Promise"), which, arr(*els))
+        if which == "all":
+            e = mcall(e, "then", self.arrow(["vs"], mcall(ident("vs"), "join", estr("|"))))
+        return [("SExpr", self.then_print(e, tag)), pr(estr(tag + ".sync"))]
+
+    def s_i_async_flow(self, sc, cx):
+        """await inside loops / try-finally / labelled continue, async arrows and methods"""
+        tag = self.fresh("ag")
+        i = self.fresh("i")
+        loop_body = [pr(estr(tag + ".i"), ident(i))]
+        fsc = Scope(sc, "function")
+        fcx = Ctx(cx.level, True, strict=cx.strict, in_async=True, depth=cx.depth + 2, in_loop=1)
+        lsc = Scope(fsc, "block")
+        lsc.add(Var(i, "let", "int", protected=True))
+        saved = self.cur_strict
+        self.cur_strict = cx.strict
+        loop_body += self.s_await(lsc, fcx)
+        if self.chance(0.5):
+            loop_body.append(("SIf", bin_("BSEq", ident(i), num(self.rng.randrange(0, 3))), self.pick([("SContinue", None), ("SBreak", None), ("SReturn", estr("early"))]), None))
+        loop_body.append(pr(estr(tag + ".e"), ident(i)))
+        self.cur_strict = saved
+        body = [("STry", [("SFor", ("FIDecl", "KLet", [(pid(i), num(0))]), bin_("BLt", ident(i), num(self.rng.randrange(1, 4))), ("EUpdate", False, True, ident(i)), ("SBlock", loop_body))],
+                 None, [pr(estr(tag + ".fin"))]), ("SReturn", estr("done"))]
+        style = self.pick(["arrow", "method", "expr"])
+        if style == "arrow":
+            f = ("EFunc", self.add_func(func(kind="FAsyncArrow", body=body, strict=cx.strict)))
+            callee = f
+            return [("SExpr", self.then_print(call(callee), tag)), pr(estr(tag + ".sync"))]
+        if style == "method":
+            fi = self.add_func(func(name="run", kind="FAsync", body=body, strict=cx.strict))
+            o = self.fresh("ao")
+            return [let(o, ("EObject", [("PMethod", ("PKStr", u("run")), fi)]), "KConst"), ("SExpr", self.then_print(mcall(ident(o), "run"), tag)), pr(estr(tag + ".sync"))]
+        f = ("EFunc", self.add_func(func(kind="FAsync", body=body, strict=cx.strict)))
+        fn = self.fresh("afe")
+        return [let(fn, f, "KConst"), ("SExpr", self.then_print(call(ident(fn)), tag)), pr(estr(tag + ".sync"))]
 
 
 # ------------------------------------------------------------------------------------------------ early errors
